@@ -205,6 +205,8 @@ def run(ctx):
                         sub_bad[o] = c
     import re as _re
 
+    examples = {}
+
     time_single_bad = set()
     for (sql, d), (c, v) in bad.items():
         m = c["meta"]
@@ -228,7 +230,11 @@ def run(ctx):
             key = f"{v}:{d or 'base'}:" + (("atom:" + t["v"]) if t["k"] == "atom" else (("stmt:" if t["k"] == "stmt" else "") + t["f"]))
         else:
             key = f"{v}:{d or 'base'}:{m['src']}:{'%08x' % zlib.crc32(sql.encode())}"
-        ctx.violation(key, f"{v} in {d or 'base'} for {sql!r}: s1={m.get('s1')!r} s2={m.get('s2')!r} {m.get('error', '')}", {"sql": sql, "dialect": d, "fmt": m.get("fmt")})
+        what = f"{v} in {d or 'base'} for {sql!r}: s1={m.get('s1')!r} s2={m.get('s2')!r} {m.get('error', '')}"
+        examples.setdefault(key, what[:400])
+        ctx.violation(key, what, {"sql": sql, "dialect": d, "fmt": m.get("fmt")})
+    with open(os.path.join(ctx.work, "key_examples.json"), "w") as f:
+        json.dump(examples, f, indent=0, sort_keys=True)
     ctx.notes.update({"verdicts": stats, "texts": len(texts), "pipelines": len(cases), "outside_domain": skipped})
     for c in cases[:: max(1, len(cases) // 3)][:3]:
         ctx.sample({"sql": c["meta"]["sql"], "dialect": c["meta"]["dialect"], "s1": c["meta"].get("s1")})
